@@ -362,6 +362,18 @@ static void print_handle(KSI_AsyncHandle *h) {
 
 static char cred_user[1024] = "anon", cred_key[70000] = "anon";
 static FILE *devnull;
+/* metadata from "<clientHex>[,<machineHex|->[,<seq|->[,<reqTimeMicros|->]]]]" */
+static int md_from_spec(KSI_CTX *c, char *spec, KSI_MetaData **out) {
+	char *f[4] = {0}; int nf = 0, rc; char *sv = NULL, *q; KSI_MetaData *md = NULL; KSI_Utf8String *u = NULL; KSI_Integer *v = NULL; size_t l; unsigned char *b;
+	for (q = strtok_r(spec, ",", &sv); q && nf < 4; q = strtok_r(NULL, ",", &sv)) f[nf++] = q;
+	rc = KSI_MetaData_new(c, &md);
+	if (rc == KSI_OK) { b = hx_dec(f[0], &l); rc = KSI_Utf8String_new(c, (char *)b, l, &u); free(b); if (rc == KSI_OK) rc = KSI_MetaData_setClientId(md, u); KSI_Utf8String_free(u); u = NULL; }
+	if (rc == KSI_OK && nf > 1 && strcmp(f[1], "-")) { b = hx_dec(f[1], &l); rc = KSI_Utf8String_new(c, (char *)b, l, &u); free(b); if (rc == KSI_OK) rc = KSI_MetaData_setMachineId(md, u); KSI_Utf8String_free(u); }
+	if (rc == KSI_OK && nf > 2 && strcmp(f[2], "-")) { rc = KSI_Integer_new(c, strtoull(f[2], NULL, 10), &v); if (rc == KSI_OK) rc = KSI_MetaData_setSequenceNr(md, v); KSI_Integer_free(v); v = NULL; }
+	if (rc == KSI_OK && nf > 3 && strcmp(f[3], "-")) { rc = KSI_Integer_new(c, strtoull(f[3], NULL, 10), &v); if (rc == KSI_OK) rc = KSI_MetaData_setRequestTimeInMicros(md, v); KSI_Integer_free(v); }
+	if (rc != KSI_OK) { KSI_MetaData_free(md); md = NULL; }
+	*out = md; return rc;
+}
 static KSI_BlockSigner *bs; static KSI_BlockSignerHandle *bsh[64]; static int nbsh;
 static void bs_free_all(void) { int k; for (k = 0; k < nbsh; k++) KSI_BlockSignerHandle_free(bsh[k]); nbsh = 0; KSI_BlockSigner_free(bs); bs = NULL; }
 
@@ -441,8 +453,7 @@ int main(void) {
 		} else if (!strcmp(tok[0], "BSADD")) {
 			size_t l; unsigned char *b = hx_dec(tok[1], &l); KSI_DataHash *h = NULL; KSI_MetaData *md = NULL; int rc;
 			rc = KSI_DataHash_fromImprint(ctx, b, l, &h); free(b);
-			if (rc == KSI_OK && strcmp(tok[3], "-")) { KSI_Utf8String *cid = NULL; b = hx_dec(tok[3], &l); rc = KSI_MetaData_new(ctx, &md);
-				if (rc == KSI_OK) rc = KSI_Utf8String_new(ctx, (char *)b, l, &cid); if (rc == KSI_OK) rc = KSI_MetaData_setClientId(md, cid); KSI_Utf8String_free(cid); free(b); }
+			if (rc == KSI_OK && strcmp(tok[3], "-")) rc = md_from_spec(ctx, tok[3], &md);
 			if (rc == KSI_OK) { bsh[nbsh] = NULL; rc = KSI_BlockSigner_addLeaf(bs, h, atoi(tok[2]), md, &bsh[nbsh]); if (rc == KSI_OK) nbsh++; }
 			KSI_MetaData_free(md); KSI_DataHash_free(h);
 			printf("R bsadd rc=0x%x n=%d\n", rc, nbsh);
